@@ -160,9 +160,12 @@ def usage_queues(c, tier, seed, net_frames=False, device_level=False):
     """Every driver used (device families of C14-C20, standard-following device, all transports,
     feature sets offering none / one / both of INDIRECT_DESC and EVENT_IDX): each queue's trace is
     validated against VirtQueue.tla with the negotiated bits as its configuration."""
-    for fam in ("blk", "console", "net", "vsock", "evq", "cmd"):
+    # (scenario lists of the quick tier; the thorough tier runs them for three seeds - the
+    # families' own thorough-sized runs belong to C14-C20)
+    rounds = [seed + 3] if tier != "thorough" else [seed + 3, seed + 1003, seed + 2003]
+    for fam, useed in [(f, s_) for s_ in rounds for f in ("blk", "console", "net", "vsock", "evq", "cmd")]:
         out = os.path.join(WORK, c.pid, f"use-{fam}.ndjson")
-        idx = run_harness(fam, out, seed + 3, tier)
+        idx = run_harness(fam, out, useed, "quick")
         qv = validate_traces("VirtQueueTrace", "VirtQueueTrace.cfg", out + ".q.ndjson", {"scenarios": []})
         qv["scenarios"] = len(idx["scenarios"])
         c.add_validation(qv, "use-" + fam + "/queues")
